@@ -334,6 +334,13 @@ Definition evm_effect_nonce_ok (t : tx) : Prop :=
 (* ... and lowers no nonce (nonces of other accounts only move when a contract creates contracts) *)
 Definition evm_effect_mono (s : state) (t : tx) : Prop :=
   ∀ e a n, t_evm t = Some e → eff_nonce (e_accts e) a = Some n → nonce_of (work s) a ≤ n.
+(* the same for one account.  The history theorem needs it only for the sender it speaks about: the
+   EVM does lower a nonce in one case, the self-destruction of a contract (its creation counter goes
+   back to 0), and a contract address has no key to send transactions with *)
+Definition evm_effect_mono_at (a : addr) (s : state) (t : tx) : Prop :=
+  ∀ e n, t_evm t = Some e → eff_nonce (e_accts e) a = Some n → nonce_of (work s) a ≤ n.
+Lemma evm_effect_mono_all s t : evm_effect_mono s t ↔ ∀ a, evm_effect_mono_at a s t.
+Proof. unfold evm_effect_mono, evm_effect_mono_at. split; intros H; [intros a e n|intros e a n]; apply H. Qed.
 
 Corollary deliver_ok_nonce_step_evm s t s' g :
   evm_path s t = true → evm_effect_nonce_ok t → deliver s t = (s', Ok g) →
@@ -501,13 +508,13 @@ Qed.
 Definition delivered (s : state) (t : tx) : Prop := ∃ g, (deliver s t).2 = Ok g.
 
 (* the hypotheses of the history theorem about account [a]:
-   - deliveries that take the EVM path obey the EVM nonce hypothesis (sender's nonce + 1, no
-     nonce lowered);
+   - deliveries that take the EVM path obey the EVM nonce hypothesis (sender's nonce + 1, the
+     nonce of [a] not lowered);
    - no successful transaction of [a] carries the last nonce 2^64 - 1 (no wrap-around) *)
 Definition hist_ok (a : addr) (s : state) (o : sop) : Prop :=
   match o with
   | SDeliver t =>
-      (evm_path s t = true → evm_effect_nonce_ok t ∧ evm_effect_mono s t) ∧
+      (evm_path s t = true → evm_effect_nonce_ok t ∧ evm_effect_mono_at a s t) ∧
       (t_from t = a → delivered s t → t_nonce t < two64 - 1)
   | _ => True
   end.
